@@ -29,6 +29,7 @@ fn main() {
         "crash" => seq::engine_crash(cases, &mut out),
         "free" => seq::engine_free(&rt, cases, &mut out),
         "trans" => seq::engine_trans(cases, &mut out),
+        "cachediff" => seq::engine_cachediff(cases, &mut out),
         "overtake" => seq::engine_overtake(&rt, cases, &mut out),
         other => {
             eprintln!("unknown engine {other}");
@@ -38,4 +39,6 @@ fn main() {
     out.flush();
     drop(_guard);
     rt.shutdown_timeout(std::time::Duration::from_millis(200));
+    // a call that never returned (termination violation) may still be spinning in its thread
+    std::process::exit(0);
 }
